@@ -458,7 +458,9 @@ class Monitor(object):
             prior = ns0[1]
         self.matrices[id(m)] = {"matrix": m, "ntax": obj._file_specified_ntax, "nchar": obj._file_specified_nchar,
                                 "ntax_in_block": bool(self.block_ntax_declared and self.in_char_block),
-                                "interleave": bool(obj._interleave), "dtype": obj._data_type, "taxa_before": prior}
+                                "interleave": bool(obj._interleave), "dtype": obj._data_type, "taxa_before": prior,
+                                # size right after the MATRIX statement: later blocks of the document may add taxa too
+                                "taxa_after": len(m.taxon_namespace._taxa) if getattr(m, "taxon_namespace", None) is not None else None}
 
 
 _MON = [None]
@@ -884,7 +886,9 @@ def read_and_judge(ctx, fmt, route, text, kw, dtype, klass="generated", expect_v
                     side = "fewer" if nrows < ntax else "more"
                     what = "returned matrix has %d rows, the block's DIMENSIONS declared NTAX=%s" % (nrows, ntax)
                     before = rec["taxa_before"]
-                    after = len(m.taxon_namespace._taxa)
+                    after = rec.get("taxa_after")
+                    if after is None:
+                        after = len(m.taxon_namespace._taxa)
                     if klass in ("valid", "valid-option"):
                         ctx.violation("nexus|valid-document-matrix-rows-differ-from-ntax|%s" % side, what + " (complete valid document)", d2)
                     elif side == "fewer":
